@@ -53,6 +53,33 @@ func run(c *core.Ctx) {
 	}
 	c.Exhaustive = true
 	c.Note(fmt.Sprintf("exhaustive: all n in 0..%d x size in 1..%d x 6 functions with distinct elements; plus random", maxN, maxN+2))
+	// oracle-heavy, model-sampled: lengths and sizes around powers of two up to 4097 (a defect may hide
+	// behind a size threshold); every case goes through the oracle, one in 40 through the model
+	var dims []int
+	for _, b := range []int{8, 16, 32, 64, 128, 256, 512, 1024, 2048, 4096} {
+		dims = append(dims, b-1, b, b+1)
+	}
+	k := 0
+	for _, n := range dims {
+		in := c.Rng.Ints(n, -3, 9)
+		sizes := append([]int{1, 2, 3, 5, n - 1, n, n + 1, n / 2, n/2 + 1, n / 3}, dims...)
+		for _, size := range sizes {
+			if size < 1 {
+				continue
+			}
+			for _, fn := range fns {
+				if (fn == "Pairs" || fn == "PairsFunc") && size > 1 {
+					continue
+				}
+				if (fn == "Windowed" || fn == "WindowedFunc") && n >= size && (n-size+1)*size > 200000 {
+					continue // quadratic output
+				}
+				k++
+				small := n <= 130 || fn == "Pairs" || fn == "PairsFunc" || fn == "Chunk" || fn == "ChunkFunc"
+				execEmit(c, Case{fn, in, size}, k%40 == 0 && small && ((fn != "Windowed" && fn != "WindowedFunc") || (n-size+1)*size < 4000))
+			}
+		}
+	}
 	// random: larger n, repeated elements
 	for i := c.N(300, 6000, 5000); i > 0; i-- {
 		n := c.Rng.Size(c.N(300, 2000, 600))
@@ -71,7 +98,11 @@ func run(c *core.Ctx) {
 	}
 }
 
-func exec(c *core.Ctx, cs Case) {
+func exec(c *core.Ctx, cs Case) { execEmit(c, cs, true) }
+
+// execEmit: with emit=false the case is checked by the direct oracle only (large inputs: the Go side
+// is cheap, the Coq replay is not)
+func execEmit(c *core.Ctx, cs Case, emit bool) {
 	c.Begin(cs)
 	c.Count("fn_" + cs.Fn)
 	in := append([]int{}, cs.Input...)
@@ -115,6 +146,10 @@ func exec(c *core.Ctx, cs Case) {
 		} else if msg := oracle(cs, pieces); msg != "" {
 			c.Fail(msg, fmt.Sprint(pieces))
 		}
+	}
+	if !emit {
+		c.Count("oracle_only")
+		return
 	}
 	c.Emit(fmt.Sprintf("Case F%s %s %s %s", cs.Fn, core.ZList(cs.Input), core.Z(cs.Size), core.Res(kind, core.ZListList(pieces))))
 }
